@@ -94,8 +94,9 @@ def tmap(v, a, b):
 
 
 def equivariance(ctx, chk, tier):
-    reps = list(SCORE_REPS.items())
-    easy = EASY_REPS[:2] if tier != "thorough" else EASY_REPS
+    from .thr import reps_for, easy_for
+    reps = reps_for(tier)
+    easy = easy_for(tier, 2)
     targets = TARGET_REPS if tier == "thorough" else TARGET_REPS[::2]
     if tier != "thorough":
         reps = [r for r in reps if r[0] in ("1v1", "3v2", "2v3sep", "ties")]
